@@ -401,12 +401,12 @@ func importBlockRule(p *core.Program, r *core.Report, rule string) {
 	ast.Inspect(w.Body, func(n ast.Node) bool {
 		if as, ok := n.(*ast.AssignStmt); ok {
 			for _, l := range as.Lhs {
-				if ix, ok := ast.Unparen(l).(*ast.IndexExpr); ok && core.VarOf(info, ix.X) == mp {
+				if ix, ok := ast.Unparen(l).(*ast.IndexExpr); ok && (mp != nil && core.CanonVarOf(info, w.Body, ix.X) == mp) {
 					mutated = true
 				}
 			}
 		}
-		if c, ok := n.(*ast.CallExpr); ok && core.CalleeName(info, c) == "builtin.delete" && len(c.Args) > 0 && core.VarOf(info, c.Args[0]) == mp {
+		if c, ok := n.(*ast.CallExpr); ok && core.CalleeName(info, c) == "builtin.delete" && len(c.Args) > 0 && (mp != nil && core.CanonVarOf(info, w.Body, c.Args[0]) == mp) {
 			mutated = true
 		}
 		return true
@@ -418,7 +418,7 @@ func importBlockRule(p *core.Program, r *core.Report, rule string) {
 		if len(c.Args) == 4 {
 			ne, _ := core.Resolve(info, w.Body, c.Args[2])
 			ix, ok := ast.Unparen(ne).(*ast.IndexExpr)
-			if ok && core.VarOf(info, ix.X) == mp && core.SameRef(info, ix.Index, c.Args[3]) {
+			if ok && (mp != nil && core.CanonVarOf(info, w.Body, ix.X) == mp) && core.SameRef(info, ix.Index, c.Args[3]) {
 				if s, isC := core.ConstString(info, c.Args[1]); isC && strings.Contains(s, `%s "%s"`) {
 					// the path variable ranges over the collected keys
 					if v := core.VarOf(info, c.Args[3]); v != nil {
@@ -451,7 +451,7 @@ func importBlockRule(p *core.Program, r *core.Report, rule string) {
 	// keys: collected from the map and sorted (also C04)
 	var src *ast.RangeStmt
 	ast.Inspect(w.Body, func(n ast.Node) bool {
-		if rs, ok := n.(*ast.RangeStmt); ok && core.VarOf(info, rs.X) == mp {
+		if rs, ok := n.(*ast.RangeStmt); ok && mp != nil && core.CanonVarOf(info, w.Body, rs.X) == mp {
 			src = rs
 		}
 		return true
@@ -459,7 +459,7 @@ func importBlockRule(p *core.Program, r *core.Report, rule string) {
 	sortedDirect := false
 	ast.Inspect(w.Body, func(n ast.Node) bool {
 		if rs, ok := n.(*ast.RangeStmt); ok {
-			if m := sortedKeysOperand(info, w.Body, rs.X); m != nil && core.VarOf(info, m) == mp {
+			if m := sortedKeysOperand(info, w.Body, rs.X); m != nil && mp != nil && core.CanonVarOf(info, w.Body, m) == mp {
 				sortedDirect = true
 			}
 		}
